@@ -347,16 +347,41 @@ func relevantFacts(c *FnCtx, n int, goal *Term, gap [2]int, pc *Term) []*Term {
 	markNth(goal, map[int]bool{})
 	mark(goal, false)
 	keep := make([]bool, len(facts))
+	// unguarded, untriggered facts (facts about inputs and package variables, the package invariant, ...) are only
+	// used when they share a constant symbol with something already relevant (cone of influence)
+	var loose []int
 	for i, f := range facts {
 		if trigs[i] == nil && !skip(i) {
+			if i < len(c.factGuarded) && !c.factGuarded[i] && f.kind != kQuant {
+				loose = append(loose, i)
+				continue
+			}
 			keep[i] = true
 			mark(f, false)
 		}
 	}
 	for changed := true; changed; {
 		changed = false
+		for _, i := range loose {
+			if keep[i] {
+				continue
+			}
+			ss := c.looseSyms(i)
+			hit := len(ss) == 0
+			for _, id := range ss {
+				if reach[id] {
+					hit = true
+					break
+				}
+			}
+			if hit {
+				keep[i] = true
+				mark(facts[i], false)
+				changed = true
+			}
+		}
 		for i, f := range facts {
-			if keep[i] || skip(i) {
+			if keep[i] || skip(i) || trigs[i] == nil {
 				continue
 			}
 			ok := reach[trigs[i].id]
@@ -373,68 +398,10 @@ func relevantFacts(c *FnCtx, n int, goal *Term, gap [2]int, pc *Term) []*Term {
 			}
 		}
 	}
-	// cone of influence: of the facts selected so far only those connected to the goal through shared symbols
-	// (constants: inputs, package variables, heaps, fresh names) can matter; dropping the others is sound
-	symMemo := map[int][]int{}
-	var symsOf func(t *Term, acc map[int]bool, seen map[int]bool)
-	symsOf = func(t *Term, acc map[int]bool, seen map[int]bool) {
-		if seen[t.id] {
-			return
-		}
-		seen[t.id] = true
-		if t.kind == kVar {
-			acc[t.id] = true
-			return
-		}
-		for _, a := range t.args {
-			symsOf(a, acc, seen)
-		}
-	}
-	factSyms := func(f *Term) []int {
-		if v, ok := symMemo[f.id]; ok {
-			return v
-		}
-		acc := map[int]bool{}
-		symsOf(f, acc, map[int]bool{})
-		var l []int
-		for id := range acc {
-			l = append(l, id)
-		}
-		symMemo[f.id] = l
-		return l
-	}
-	cone := map[int]bool{}
-	for _, id := range factSyms(goal) {
-		cone[id] = true
-	}
-	sel := make([]bool, len(facts))
 	seenFact := map[int]bool{}
-	for changed := true; changed; {
-		changed = false
-		for i, f := range facts {
-			if !keep[i] || sel[i] {
-				continue
-			}
-			ss := factSyms(f)
-			hit := len(ss) == 0
-			for _, id := range ss {
-				if cone[id] {
-					hit = true
-					break
-				}
-			}
-			if hit {
-				sel[i] = true
-				changed = true
-				for _, id := range ss {
-					cone[id] = true
-				}
-			}
-		}
-	}
 	var out []*Term
 	for i, f := range facts {
-		if keep[i] && sel[i] && !seenFact[f.id] {
+		if keep[i] && !seenFact[f.id] {
 			seenFact[f.id] = true
 			out = append(out, f)
 		}
@@ -461,7 +428,7 @@ func preInstantiate(ts *TermStore, hyps []*Term, goal *Term) []*Term {
 		if t.kind == kQuant {
 			return
 		}
-		if t.kind == kApp && t.op == "seq.nth" && len(ts.FreeBoundVars(t)) == 0 {
+		if t.kind == kApp && t.op == "seq.nth" && t.args[1].kind != kBound {
 			k := key{t.args[0].id, t.args[1].id}
 			if _, ok := ground[k]; !ok {
 				ground[k] = t.args[1]
@@ -472,12 +439,21 @@ func preInstantiate(ts *TermStore, hyps []*Term, goal *Term) []*Term {
 			collect(a, seen)
 		}
 	}
-	collect(goal, map[int]bool{})
 	var out []*Term
 	done := map[[2]int]bool{}
 	// positive-position universal quantifiers of a hypothesis
-	var quants func(t *Term, pos bool, acc *[]*Term)
-	quants = func(t *Term, pos bool, acc *[]*Term) {
+	var quantsV func(t *Term, pos bool, acc *[]*Term, vis map[[2]int]bool)
+	quants := func(t *Term, pos bool, acc *[]*Term) { quantsV(t, pos, acc, map[[2]int]bool{}) }
+	quantsV = func(t *Term, pos bool, acc *[]*Term, vis map[[2]int]bool) {
+		k := [2]int{t.id, 0}
+		if pos {
+			k[1] = 1
+		}
+		if vis[k] || t.sort != SBool {
+			return
+		}
+		vis[k] = true
+		quants := func(t *Term, pos bool, acc *[]*Term) { quantsV(t, pos, acc, vis) }
 		switch {
 		case t.kind == kQuant:
 			if t.op == "forall" && pos {
@@ -494,6 +470,20 @@ func preInstantiate(ts *TermStore, hyps []*Term, goal *Term) []*Term {
 			}
 		}
 	}
+	// nothing to do unless some hypothesis holds a universal quantifier at a positive position
+	anyQ := false
+	for _, h := range hyps {
+		var qs []*Term
+		quants(h, true, &qs)
+		if len(qs) > 0 {
+			anyQ = true
+			break
+		}
+	}
+	if !anyQ {
+		return nil
+	}
+	collect(goal, map[int]bool{})
 	for round := 0; round < 2; round++ {
 		n0 := len(order)
 		for _, h := range append(append([]*Term{}, hyps...), out...) {
@@ -514,7 +504,7 @@ func preInstantiate(ts *TermStore, hyps []*Term, goal *Term) []*Term {
 						}
 						done[[2]int{q.id, k.idx}] = true
 						inst := ts.Subst(body, bv, ground[k])
-						nh := replacePositive(ts, h, q, inst, true)
+						nh := replacePositive(ts, h, q, inst, true, map[[2]int]*Term{})
 						out = append(out, nh)
 						collect(inst, map[int]bool{})
 						if len(out) >= 60 {
@@ -533,7 +523,20 @@ func preInstantiate(ts *TermStore, hyps []*Term, goal *Term) []*Term {
 
 // replacePositive replaces the occurrences of quantifier q that sit at positive positions of t (reached through
 // and / or / not / => only) by inst; any other occurrence is left alone.
-func replacePositive(ts *TermStore, t, q, inst *Term, pos bool) *Term {
+func replacePositive(ts *TermStore, t, q, inst *Term, pos bool, memo map[[2]int]*Term) *Term {
+	k := [2]int{t.id, 0}
+	if pos {
+		k[1] = 1
+	}
+	if r, ok := memo[k]; ok {
+		return r
+	}
+	r := replacePositive1(ts, t, q, inst, pos, memo)
+	memo[k] = r
+	return r
+}
+
+func replacePositive1(ts *TermStore, t, q, inst *Term, pos bool, memo map[[2]int]*Term) *Term {
 	switch {
 	case t == q:
 		if pos {
@@ -541,13 +544,13 @@ func replacePositive(ts *TermStore, t, q, inst *Term, pos bool) *Term {
 		}
 		return t
 	case t.kind == kApp && t.op == "not" && len(t.args) == 1:
-		in := replacePositive(ts, t.args[0], q, inst, !pos)
+		in := replacePositive(ts, t.args[0], q, inst, !pos, memo)
 		if in == t.args[0] {
 			return t
 		}
 		return ts.Not(in)
 	case t.kind == kApp && t.op == "=>" && len(t.args) == 2:
-		a, b := replacePositive(ts, t.args[0], q, inst, !pos), replacePositive(ts, t.args[1], q, inst, pos)
+		a, b := replacePositive(ts, t.args[0], q, inst, !pos, memo), replacePositive(ts, t.args[1], q, inst, pos, memo)
 		if a == t.args[0] && b == t.args[1] {
 			return t
 		}
@@ -556,7 +559,7 @@ func replacePositive(ts *TermStore, t, q, inst *Term, pos bool) *Term {
 		na := make([]*Term, len(t.args))
 		same := true
 		for i, a := range t.args {
-			na[i] = replacePositive(ts, a, q, inst, pos)
+			na[i] = replacePositive(ts, a, q, inst, pos, memo)
 			same = same && na[i] == a
 		}
 		if same {
@@ -696,4 +699,43 @@ func mepoFilter(hyps []*Term, goal *Term, thr float64, max int) []*Term {
 		}
 	}
 	return out
+}
+
+// termSyms: ids of the constant symbols (kVar) occurring in t.
+func termSyms(t *Term) []int {
+	acc := map[int]bool{}
+	seen := map[int]bool{}
+	var walk func(t *Term)
+	walk = func(t *Term) {
+		if seen[t.id] {
+			return
+		}
+		seen[t.id] = true
+		if t.kind == kVar {
+			acc[t.id] = true
+			return
+		}
+		for _, a := range t.args {
+			walk(a)
+		}
+	}
+	walk(t)
+	out := make([]int, 0, len(acc))
+	for id := range acc {
+		out = append(out, id)
+	}
+	return out
+}
+
+// looseSyms: the constant symbols of fact i (cached per function).
+func (c *FnCtx) looseSyms(i int) []int {
+	if c.symCache == nil {
+		c.symCache = map[int][]int{}
+	}
+	if v, ok := c.symCache[i]; ok {
+		return v
+	}
+	v := termSyms(c.facts[i])
+	c.symCache[i] = v
+	return v
 }
